@@ -78,7 +78,7 @@ META = dict(
     note="Trusted: Lean kernel (propext, Classical.choice, Quot.sound only), the hand-written models as far as the correspondence run "
          "exercises them, Base/Dec as a model of LegacyDec. Limit bids auto-filled by a Dutch auction: joint model, for EVERY history "
          "(several bidders at one premium, fills clipped by exhausted collateral, shutdown): BidValue = sum of records + deposits consumed "
-         "by exact fills (the code forgets to reduce BidValue there: finding D36), custody = initial + records + fees + named remainders "
-         "(over: D24, paid beyond target: D7) - skipped reserve draws (D23) - TriggerEsm payouts (D35). "
+         "by exact fills (the code forgets to reduce BidValue there: finding D40), custody = initial + records + fees + named remainders "
+         "(over: D24, paid beyond target: D7) - skipped reserve draws (D23) - TriggerEsm payouts (D39). "
          "WithdrawLimitAuctionBid is modelled with the repaired guard (D5).",
 )
